@@ -6,6 +6,7 @@ package main
 
 import (
 	"errors"
+	"fmt"
 	"os"
 	"runtime"
 	"sort"
@@ -76,21 +77,6 @@ func (a *errsArea) same(ks []int, v error) string {
 	return "#?"
 }
 
-// causeSafe reports whether rendering the stack text cannot reach a typed-nil *Error cause (which the library
-// dereferences).
-func causeSafe(c error) bool {
-	for {
-		e, ok := c.(*errs.Error)
-		if !ok {
-			return true
-		}
-		if e == nil {
-			return false
-		}
-		c = e.Unwrap()
-	}
-}
-
 func nodeDesc(n *errs.Error) string {
 	var sb strings.Builder
 	sb.WriteString(hx.Hex([]byte(n.Message())))
@@ -101,11 +87,9 @@ func nodeDesc(n *errs.Error) string {
 	c := n.Unwrap()
 	if c != nil {
 		sb.WriteByte('c')
-		if causeSafe(c) {
-			// the `wrapped` flag is visible only through the absence of the "Caused by" section
-			if !strings.Contains(n.StackTrace(true), "\n  Caused by: ") {
-				sb.WriteByte('w')
-			}
+		// the `wrapped` flag is visible only through the absence of the "Caused by" section
+		if !strings.Contains(n.StackTrace(true), "\n  Caused by: ") {
+			sb.WriteByte('w')
 		}
 	}
 	return sb.String()
@@ -154,6 +138,28 @@ func (a *errsArea) desc(ks []int, v error) string {
 	default:
 		return "p" + a.same(ks, v) + ":" + hx.Hex([]byte(v.Error()))
 	}
+}
+
+// renderAll renders an error with every verb and accessor and checks that the renderings agree with each other
+// (a panic is caught by the caller and becomes the output `panic`).
+func renderAll(e *errs.Error) string {
+	msg := e.Message()
+	v, pv := fmt.Sprintf("%v", e), fmt.Sprintf("%+v", e)
+	switch {
+	case fmt.Sprintf("%s", e) != msg:
+		return "FAIL-render %s"
+	case fmt.Sprintf("%q", e) != strconv.Quote(msg):
+		return "FAIL-render %q"
+	case v != e.Detail(true) || v != e.Error() || pv != e.Detail(false):
+		return "FAIL-render %v/%+v/Error/Detail disagree"
+	case !strings.HasSuffix(v, e.StackTrace(true)) || !strings.HasSuffix(pv, e.StackTrace(false)):
+		return "FAIL-render StackTrace is not the end of Detail"
+	case msg != "" && !strings.HasPrefix(v, msg):
+		return "FAIL-render %v does not start with the message"
+	case errors.Unwrap(e) == nil && strings.Contains(e.StackTrace(true), "\n  Caused by: "):
+		return "FAIL-render Caused by without a cause"
+	}
+	return ""
 }
 
 func (a *errsArea) dump() string {
@@ -235,6 +241,13 @@ func (a *errsArea) exec(line string) string {
 	case f[2] == "unwrap" && len(args) == 1:
 		if v := a.get(args[0]); !isNilish(v) {
 			res = errors.Unwrap(v)
+		}
+	case f[2] == "render" && len(args) == 1:
+		res = a.get(args[0])
+		if e, ok := res.(*errs.Error); ok && e != nil {
+			if fail := renderAll(e); fail != "" {
+				return fail
+			}
 		}
 	case f[2] == "eon" && len(args) == 1:
 		if e, ok := a.get(args[0]).(*errs.Error); ok {
